@@ -17,7 +17,8 @@ import (
 //	pkg/controller/runtime/internal/cache/handler.go   (get / list / contextWithTeardown wait for the
 //	                                                    bootstrapped channel before touching resources;
 //	                                                    put closes the teardown waiter when the phase is
-//	                                                    tearing down, remove closes it always)
+//	                                                    tearing down, remove closes it always; which
+//	                                                    methods are ONE critical section of cacheHandler.mu)
 //
 // processEvents' loop body is evaluated symbolically for each (event type, bootstrapped?) pair by a
 // tiny interpreter over the statement shapes that occur there. Fail closed: any statement or
@@ -224,7 +225,160 @@ func genCache(repo, out string) {
 	l.line("def putClosesWhenTearingDown : Bool := %s", leanBool(putTD && !putAlways))
 	l.line("/-- handler.go remove: the waiter of the ID is closed and deleted unconditionally -/")
 	l.line("def removeClosesWaiter : Bool := %s", leanBool(rmAlways))
+
+	// critical sections: which methods touch the shared fields (resources, teardownWaiters) inside ONE
+	// section of cacheHandler.mu
+	for _, m := range []struct{ lean, fn, doc string }{
+		{"ctxAtomic", "contextWithTeardown", "the lookup, the phase check and the registration of the teardown waiter are"},
+		{"getAtomic", "get", "the lookup and the copy of the found resource are"},
+		{"putAtomic", "put", "the update of the slice and the close of the teardown waiter are"},
+		{"removeAtomic", "remove", "the deletion from the slice and the close of the teardown waiter are"},
+	} {
+		l.line("/-- handler.go %s: %s ONE critical section: `h.mu.Lock(); defer h.mu.Unlock()` precedes every use of", m.fn, m.doc)
+		l.line("    h.resources / h.teardownWaiters, the mutex is not touched again, no other method of h is called and no closure mentions h -/")
+		l.line("def %s : Bool := %s", m.lean, leanBool(wholeCriticalSection(method(hd, "cacheHandler", m.fn))))
+	}
+
+	l.line("/-- handler.go list: the slice is cloned in ONE critical section (`h.mu.Lock(); resources := slices.Clone(h.resources); h.mu.Unlock()`),")
+	l.line("    the only use of the shared fields; handler.go append: `h.mu.Lock(); h.resources = append(h.resources, r); h.mu.Unlock()` -/")
+	l.line("def listAtomic : Bool := %s", leanBool(bracketedSection(method(hd, "cacheHandler", "list"), "resources := slices.Clone(h.resources)")))
+	l.line("def appendAtomic : Bool := %s", leanBool(bracketedSection(method(hd, "cacheHandler", "append"), "h.resources = append(h.resources, r)")))
 	l.write(out, ns)
+}
+
+// usesShared: the node mentions the handler's shared fields or its mutex, or calls a method of h
+// (a selector call `h.<name>(..)`: such a method may lock on its own).
+func usesShared(n ast.Node) bool {
+	found := false
+
+	ast.Inspect(n, func(x ast.Node) bool {
+		switch v := x.(type) {
+		case *ast.SelectorExpr:
+			if id, ok := v.X.(*ast.Ident); ok && id.Name == "h" {
+				switch v.Sel.Name {
+				case "resources", "teardownWaiters", "mu":
+					found = true
+				}
+			}
+		case *ast.CallExpr:
+			if sel, ok := v.Fun.(*ast.SelectorExpr); ok {
+				if id, ok := sel.X.(*ast.Ident); ok && id.Name == "h" {
+					found = true
+				}
+			}
+		}
+
+		return !found
+	})
+
+	return found
+}
+
+// mentionsHandler: the node mentions the identifier h at all.
+func mentionsHandler(n ast.Node) bool {
+	found := false
+
+	ast.Inspect(n, func(x ast.Node) bool {
+		if id, ok := x.(*ast.Ident); ok && id.Name == "h" {
+			found = true
+		}
+
+		return !found
+	})
+
+	return found
+}
+
+// wholeCriticalSection: among the top-level statements of the method there is `h.mu.Lock()` immediately followed by
+// `defer h.mu.Unlock()`; no statement before them uses the shared fields, the mutex or another method of h; after
+// them the mutex is not mentioned again, no method of h is called, and no function literal (goroutine, deferred
+// closure) mentions h. Then everything the method does with h.resources / h.teardownWaiters happens in one
+// section that lasts until the method returns. Anything else: false (fail closed).
+func wholeCriticalSection(fd *ast.FuncDecl) bool {
+	if fd == nil || fd.Body == nil {
+		return false
+	}
+
+	list := fd.Body.List
+	at := -1
+
+	for i, st := range list {
+		if src(st) == "h.mu.Lock()" {
+			at = i
+
+			break
+		}
+
+		if usesShared(st) {
+			return false
+		}
+	}
+
+	if at < 0 || at+1 >= len(list) || src(list[at+1]) != "defer h.mu.Unlock()" {
+		return false
+	}
+
+	ok := true
+
+	for _, st := range list[at+2:] {
+		ast.Inspect(st, func(x ast.Node) bool {
+			switch v := x.(type) {
+			case *ast.SelectorExpr:
+				if id, isID := v.X.(*ast.Ident); isID && id.Name == "h" && v.Sel.Name == "mu" {
+					ok = false
+				}
+			case *ast.CallExpr:
+				if sel, isSel := v.Fun.(*ast.SelectorExpr); isSel {
+					if id, isID := sel.X.(*ast.Ident); isID && id.Name == "h" {
+						ok = false
+					}
+				}
+			case *ast.FuncLit:
+				if mentionsHandler(v) {
+					ok = false
+				}
+			}
+
+			return ok
+		})
+	}
+
+	return ok
+}
+
+// bracketedSection: the method contains the three consecutive top-level statements `h.mu.Lock()`, <stmt>,
+// `h.mu.Unlock()`, and no other statement uses the shared fields, the mutex or a method of h.
+func bracketedSection(fd *ast.FuncDecl, stmt string) bool {
+	if fd == nil || fd.Body == nil {
+		return false
+	}
+
+	list := fd.Body.List
+	at := -1
+
+	for i, st := range list {
+		if src(st) == "h.mu.Lock()" {
+			at = i
+
+			break
+		}
+	}
+
+	if at < 0 || at+2 >= len(list) || src(list[at+1]) != stmt || src(list[at+2]) != "h.mu.Unlock()" {
+		return false
+	}
+
+	for i, st := range list {
+		if i >= at && i <= at+2 {
+			continue
+		}
+
+		if usesShared(st) {
+			return false
+		}
+	}
+
+	return true
 }
 
 // cacheEval interprets processEvents' loop body for one event type and one bootstrapped flag.
